@@ -4,13 +4,14 @@ usage: tools/seedtest.py [seed-dir-name ...]   (default: all under seeded/)
 Results: seeded/<name>/meta.json 'detected_by' and seeded/RESULTS.json"""
 import json, os, subprocess, sys, re
 VERIF = os.path.dirname(os.path.dirname(os.path.abspath(__file__)))
-REPO = "/repo"
+REPO = os.environ.get("SEED_REPO", "/repo")   # a scratch worktree for a parallel shard; the documented procedure applies to /repo itself
+CHK_ENV = dict(os.environ, VERIF_REPO=REPO) if REPO != "/repo" else dict(os.environ)
 man = json.load(open(os.path.join(VERIF, "MANIFEST.json")))
 checks = [c["property_id"] for c in man["checks"]]
 extra = [a[1:] for a in sys.argv[1:] if a.startswith("+")]
 names = [a for a in sys.argv[1:] if not a.startswith("+")] or sorted(os.listdir(os.path.join(VERIF, "seeded")))
 names = [n for n in names if os.path.isdir(os.path.join(VERIF, "seeded", n))]
-res_path = os.path.join(VERIF, "seeded", "RESULTS.json")
+res_path = os.environ.get("SEED_RESULTS") or os.path.join(VERIF, "seeded", "RESULTS.json")
 results = json.load(open(res_path)) if os.path.exists(res_path) else {}
 assert subprocess.run(["git", "-C", REPO, "status", "--porcelain"], capture_output=True, text=True).stdout.strip() == "", "/repo not clean"
 for n in names:
@@ -26,9 +27,9 @@ for n in names:
         from concurrent.futures import ThreadPoolExecutor
         todo = checks + extra
         # the first check builds the MIR facts and the emission templates for this tree; the rest read the caches in parallel
-        first = subprocess.run(["./check", "C02", "quick"], cwd=VERIF, capture_output=True, text=True)
+        first = subprocess.run(["./check", "C02", "quick"], cwd=VERIF, env=CHK_ENV, capture_output=True, text=True)
         with ThreadPoolExecutor(max_workers=8) as ex:
-            procs = list(ex.map(lambda c: (c, first if c == "C02" else subprocess.run(["./check", c, "quick"], cwd=VERIF, capture_output=True, text=True)), todo))
+            procs = list(ex.map(lambda c: (c, first if c == "C02" else subprocess.run(["./check", c, "quick"], cwd=VERIF, env=CHK_ENV, capture_output=True, text=True)), todo))
         for c, p in procs:
             viol = [l.strip() for l in p.stdout.splitlines() if l.strip().startswith("violation rule=")]
             if p.returncode == 1:
